@@ -33,10 +33,12 @@ def do_call(call):
     import parso
     from parso.parser import ParserSyntaxError
     kind, ti, v = call
-    if kind == 'load':
+    try:
         g = parso.load_grammar(version=v)
+    except Exception as e:
+        return ['exception-in-load_grammar'] + list(core.exc_sig(e))
+    if kind == 'load':
         return ['grammar', list(g.version_info), len(g._pgen_grammar.nonterminal_to_dfas)]
-    g = parso.load_grammar(version=v)
     t = TEXTS[ti]
     try:
         if kind == 'parse':
@@ -85,6 +87,27 @@ def cold_reference(calls):
     return out
 
 
+def fresh_history(history):
+    """run a call history in a truly fresh interpreter; returns the list of canonical results"""
+    code = ('import sys, json; sys.path.insert(0, %r); from vp import env; env.setup(); '
+            'from vp.props import c18; print(json.dumps([c18.do_call(tuple(c)) for c in %r]))'
+            % (env.VERIF, [list(c) for c in history]))
+    e = dict(os.environ, PYTHONHASHSEED='0', PYTHONDONTWRITEBYTECODE='1', VP_REPO=env.REPO)
+    r = subprocess.run([sys.executable, '-c', code], stdout=subprocess.PIPE, stderr=subprocess.PIPE, env=e, cwd=env.VERIF)
+    if r.returncode != 0:
+        raise RuntimeError('fresh history failed: %s' % r.stderr.decode()[-500:])
+    return json.loads(r.stdout.decode())
+
+
+def failing_prefix(history, ref):
+    """index of the first call of `history` whose result (in a fresh interpreter) differs from its reference"""
+    res = fresh_history(history)
+    for i, (c, got) in enumerate(zip(history, res)):
+        if tuple(c) in ref and got != ref[tuple(c)]:
+            return i
+    return None
+
+
 def _acc():
     acc = core.Acc()
     fnd = core.Findings(PROP)
@@ -103,6 +126,8 @@ def seq_shard(first, calls, ref_items, length):
     acc = _acc()
     calls = [tuple(c) for c in calls]
     first = tuple(first)
+    prev = ()
+    reported = 0
     for rest in itertools.product(calls, repeat=length - 1):
         seq = (first,) + rest
         acc.evaluations += 1
@@ -112,9 +137,22 @@ def seq_shard(first, calls, ref_items, length):
         for i, c in enumerate(seq):
             got = norm(do_call(c))
             if got != ref[c]:
-                acc.fail(('result-depends-on-history', c[0]), {'history': [list(x) for x in seq[:i + 1]]},
+                # make the witness reproducible from a fresh interpreter: the sequence itself, or (state that
+                # survived reset_memo) the previous sequence of this worker followed by it
+                hist = None
+                if reported < 5:
+                    for cand in (seq[:i + 1], prev + seq[:i + 1]):
+                        k = failing_prefix(cand, ref)
+                        if k is not None:
+                            hist = cand[:k + 1]
+                            break
+                    reported += 1
+                if hist is None:
+                    hist = prev + seq[:i + 1]
+                acc.fail(('result-depends-on-history', hist[-1][0]), {'history': [list(x) for x in hist]},
                          'call %r after %r' % (c, seq[:i]))
                 break
+        prev = seq
     reset_memo()
     return acc.strip()
 
@@ -240,9 +278,13 @@ def sched_shard(names, v, start, ks, two=None):
     acc = _acc()
     g = parso.load_grammar(version=v)
     bodies = [make_body(n, v) for n in names]
-    for b in bodies:
-        b()                       # warm grammar, token collection, rule instances
-    seq = [('ok', norm(b())) for b in bodies]
+    try:
+        for b in bodies:
+            b()                       # warm grammar, token collection, rule instances
+        seq = [('ok', norm(b())) for b in bodies]
+    except Exception as e:
+        acc.fail(('sequential-call-raises',) + core.exc_sig(e), {'schedule': {'threads': list(names), 'version': v}}, repr(e))
+        return acc.strip()
     f0 = fingerprint()[0]
     other = 1 - start if len(names) == 2 else None
     interleaved = 0
@@ -277,8 +319,11 @@ def count_steps(names, v, start):
     env.setup()
     from ..sched import Execution
     bodies = [make_body(n, v) for n in names]
-    for b in bodies:
-        b()
+    try:
+        for b in bodies:
+            b()
+    except Exception:
+        return 1, 2          # the shard itself reports the failing sequential call
     ex = Execution(bodies, start=start)
     ex.go()
     # steps of the first-running thread
@@ -303,7 +348,11 @@ def cold_shard(v, texts, ks, start):
         return b
     bodies = [body(texts[0]), body(texts[1])]
     reset_memo()
-    seq = [norm(b()) for b in bodies]
+    try:
+        seq = [norm(b()) for b in bodies]
+    except Exception as e:
+        acc.fail(('sequential-call-raises',) + core.exc_sig(e), {'schedule': {'cold': True, 'version': v}}, repr(e))
+        return acc.strip()
     total = None
     for k in ks:
         reset_memo()
@@ -322,7 +371,12 @@ def cold_shard(v, texts, ks, start):
                 break
         # afterwards the memoised grammar still works for a third call
         import parso
-        if norm(parso.load_grammar(version=v).parse(TEXTS[1]).dump(indent=None)) != norm(do_call(('parse', 1, v))):
+        try:
+            third = norm(parso.load_grammar(version=v).parse(TEXTS[1]).dump(indent=None))
+        except Exception as e:
+            acc.fail(('cold-third-call-raises',) + core.exc_sig(e), case, repr(e))
+            continue
+        if third != norm(do_call(('parse', 1, v))):
             acc.fail(('cold-memo-left-inconsistent',), case, '')
     reset_memo()
     return acc.strip()
@@ -354,6 +408,20 @@ def count_cold_steps(v, texts, start):
 
 
 def recheck(case):
+    """witnesses are re-executed in a fresh interpreter each (the property is about state that outlives calls,
+    so the reporting process itself must not be part of the experiment)"""
+    code = ('import sys, json; sys.path.insert(0, %r); from vp import env; env.setup(); '
+            'from vp.props import c18; print("RESULT=" + json.dumps(sorted(c18._recheck_inproc(json.loads(%r)))))'
+            % (env.VERIF, json.dumps(case)))
+    e = dict(os.environ, PYTHONHASHSEED='0', PYTHONDONTWRITEBYTECODE='1', VP_REPO=env.REPO, VP_NPROC='1')
+    r = subprocess.run([sys.executable, '-c', code], stdout=subprocess.PIPE, stderr=subprocess.PIPE, env=e, cwd=env.VERIF)
+    for line in r.stdout.decode().splitlines():
+        if line.startswith('RESULT='):
+            return {tuple(x) for x in json.loads(line[7:])}
+    raise RuntimeError('recheck subprocess failed: %s' % r.stderr.decode()[-600:])
+
+
+def _recheck_inproc(case):
     env.setup()
     if 'text' in case:
         # a single call that changes the shared state (warm-up as in fp_shard, then this one text)
@@ -369,6 +437,9 @@ def recheck(case):
         if not s.get('cold') and not s.get('preempts'):
             a = sched_shard(s['threads'], s['version'], 0, [5, 50])
             return {sig for (_, sig) in a.fails}
+        if s.get('cold') and not s.get('preempts'):
+            a = cold_shard(s['version'], [0, 1], [5], 0)
+            return {sig for (_, sig) in a.fails}
         if s.get('cold'):
             a = cold_shard(s['version'], [0, 1], [s['preempts'][0][0]], s['start'])
         else:
@@ -381,13 +452,11 @@ def recheck(case):
     if 'history' in case:
         h = [tuple(x) for x in case['history']]
         ref = cold_reference(sorted(set(h)))
-        reset_memo()
         out = set()
-        for c in h:
-            if norm(do_call(c)) != ref[c]:
+        for c, got in zip(h, fresh_history(h)):
+            if got != ref[c]:
                 out.add(('result-depends-on-history', c[0]))
                 out.add(('result-depends-on-load-order', c[0]))
-        reset_memo()
         return out
     return set()
 
